@@ -92,7 +92,7 @@ func (w *World) verifyFunction(fn *ssa.Function, c *Contract) *Exec {
 		}
 		if !has && x.trivial[name] == 0 {
 			x.trivial[name]++
-			x.trivialMeta[name] = &Goal{name: name, kind: "safety", props: []string{"C14"}, info: "function exits by panic (no such path)"}
+			x.trivialMeta[name] = &Goal{name: name, kind: "safety", props: x.noPanicProps(), info: "function exits by panic (no such path)"}
 		}
 	}
 	// every loop / call-site clause of the contract must have been bound to
@@ -347,12 +347,29 @@ func (x *Exec) typeInvPreserved(s *State) {
 	}
 }
 
+// noPanicProps: a function that may not panic and does breaks C14 and every
+// property its contract serves.
+func (x *Exec) noPanicProps() []string {
+	ps := map[string]bool{"C14": true}
+	if x.contract != nil {
+		for p := range propsOfContract(x.contract) {
+			ps[p] = true
+		}
+	}
+	var out []string
+	for p := range ps {
+		out = append(out, p)
+	}
+	sort.Strings(out)
+	return out
+}
+
 func (x *Exec) exitPanic(s *State) {
 	c := x.contract
 	s.comment("exit by panic")
 	if c == nil || !c.MayPanic {
 		// reaching this point at all is the violation
-		s.goal(x.entryKey+"#safety:no-panic", "safety", []string{"C14"}, tFalse, "", "function exits by panic")
+		s.goal(x.entryKey+"#safety:no-panic", "safety", x.noPanicProps(), tFalse, "", "function exits by panic")
 		return
 	}
 	env := x.entryEnv(s)
